@@ -28,7 +28,7 @@ RULE = (
 ASSUMPTIONS = [
     "Inputs may be DAGs (one node object reachable from two parents), as the library itself produces them; the reference "
     "transform works on a deep copy (which preserves the sharing) and builds fresh nodes.",
-    "Operator calls carry positional arguments only (keywords have no function-form meaning in the statement).",
+    "Operator calls may carry an extra keyword argument: Op(seq, args..., key=value) is the function form of seq.Op(args..., key=value).",
     "Value equality is checked on the LINQ subset with python sequences; CPython is the evaluator.",
 ]
 BUDGET = {"quick": (4, 1200), "thorough": (16, 10000)}
@@ -36,13 +36,13 @@ EXHAUSTIVE_NOTE = "12 operator names + 6 look-alikes x 21 syntactic positions (i
 
 
 class SeqX(pyeval.Seq):
-    def Select(self, f):
+    def Select(self, f, tag=None):
         return SeqX([f(x) for x in self])
 
-    def Where(self, f):
+    def Where(self, f, tag=None):
         return SeqX([x for x in self if f(x)])
 
-    def SelectMany(self, f):
+    def SelectMany(self, f, tag=None):
         return SeqX([y for x in self for y in f(x)])
 
     # look-alikes: deterministic, distinguishable from the operators
@@ -88,9 +88,9 @@ def _x(v):
 def _env(data):
     env = {k: _x(v) for k, v in data.items()}
     env.update(
-        Select=lambda s, f: _x(s).Select(f),
-        Where=lambda s, f: _x(s).Where(f),
-        SelectMany=lambda s, f: _x(s).SelectMany(f),
+        Select=lambda s, f, tag=None: _x(s).Select(f),
+        Where=lambda s, f, tag=None: _x(s).Where(f),
+        SelectMany=lambda s, f, tag=None: _x(s).SelectMany(f),
         Sum=lambda s: sum(s),
         Max=lambda s: max(s),
         Min=lambda s: min(s),
@@ -106,6 +106,10 @@ def _env(data):
 
 def _call(draw, op, recv, args):
     """render op in method or function form"""
+    if op in ("Select", "Where", "SelectMany") and draw(st.integers(0, 7)) == 0:
+        # an extra argument given by keyword (a hint for the back end): it stays a keyword argument of the function form, and
+        # operator calls inside its value are rewritten like everywhere else
+        args = list(args) + ["tag=" + draw(st.sampled_from(["n0", "(s0).Count()", "Count(s1)", "(ss0).First().Count()"]))]
     if draw(st.booleans()):
         return f"({recv}).{op}({', '.join(args)})"
     return f"{op}({', '.join([recv] + args)})"
@@ -291,7 +295,7 @@ def _reference(tree, names=None):
         def visit_Call(self, n):
             self.generic_visit(n)
             if isinstance(n.func, ast.Attribute) and n.func.attr in names:
-                return ast.Call(func=ast.Name(id=n.func.attr, ctx=ast.Load()), args=[n.func.value] + list(n.args), keywords=[])
+                return ast.Call(func=ast.Name(id=n.func.attr, ctx=ast.Load()), args=[n.func.value] + list(n.args), keywords=list(n.keywords))
             return n
 
     return R().visit(copy.deepcopy(tree))
